@@ -1,4 +1,5 @@
 import libcst as cst
+from libcst import matchers as m
 
 from codemodder.codemods.utils_mixin import NameResolutionMixin
 from core_codemods.api import Metadata, Reference, ReviewGuidance, SimpleCodemod
@@ -33,11 +34,19 @@ class UseGenerator(SimpleCodemod, NameResolutionMixin):
             # NOTE: could also support things like `list` and `tuple`
             # but it's a less compelling use case
             case cst.Name("any" | "all" | "sum" | "min" | "max"):
-                if len(original_node.args) == 1 and self.is_builtin_function(
-                    original_node
+                if (
+                    len(original_node.args) == 1
+                    # `any(*[...])` passes the elements, not the list
+                    and original_node.args[0].star == ""
+                    and self.is_builtin_function(original_node)
                 ):
                     match updated_node.args[0].value:
-                        case cst.ListComp(elt=elt, for_in=for_in):
+                        case cst.ListComp(elt=elt, for_in=for_in) if not m.findall(
+                            updated_node.args[0].value, m.Await()
+                        ) and not m.findall(
+                            updated_node.args[0].value, m.CompFor(asynchronous=m.Asynchronous())
+                        ):
+                            # (an `await` would turn the generator into an async generator)
                             self.add_change(original_node, self.change_description)
                             return updated_node.with_changes(
                                 args=[
